@@ -1,6 +1,8 @@
 import ObiVerif.Model.SeqOps
 import ObiVerif.Model.SeqHeap
 import ObiVerif.Model.SeqAnnot
+import ObiVerif.Model.SeqHeapMut
+import ObiVerif.Model.SeqAnnTree
 import ObiVerif.Driver.Util
 /-! line protocol for C07 -/
 namespace ObiVerif.Driver.C07
@@ -162,10 +164,192 @@ def runHeap (ops : List String) : String :=
       | .error .badOp => "bad-op"
     if a == b && b == c && c == v then a else s!"MODEL-DIVERGES lifo[{a}] rnd[{b}] fresh[{c}] value[{v}]"
 
+
+/-! ### mutator histories (`Model/SeqHeapMut.lean`) -/
+
+open ObiVerif.SeqHeap in
+/-- one textual operation of a `mut` history = the calls the harness makes, which depend on what the
+object shows (`Write` is followed by `WriteQualities` when the object has qualities, …) -/
+def expandMut (v : VStore) (op : String) : Option (List MOp) :=
+  let f := op.splitOn ":"
+  match f with
+  | ["new", _, _, _] => (parseHOp op).map fun o => [.base o]
+  | _ =>
+    match f[1]? >>= v with
+    | none => none
+    | some oa =>
+      let hasQ : Bool := !oa.qual.isEmpty
+      match f with
+      | ["copy", a, b] => some [.base (.copy a b)]
+      | ["rc", a, b] => some [.rcm a b]
+      | ["rci", a] => some [.rcim a]
+      | ["sub", a, b, fr, t, c] => do
+        let fr ← fr.toInt?
+        let t ← t.toInt?
+        pure [.subm a b fr t (c == "1")]
+      | ["write", a, s, q] => do
+        let sb ← unhex s
+        let qb ← unhex q
+        let hadQ := hasQ || (oa.seq.isEmpty && qb.length == sb.length && qb.length > 0)
+        pure (if hadQ then [.write a sb, .writequal a (if qb.length == sb.length then qb else List.replicate sb.length 0)]
+          else [.write a sb])
+      | ["writestring", a, s, q] => do
+        let sb ← unhex s
+        let qb ← unhex q
+        pure (if hasQ then [.write a sb, .writequal a (if qb.length == sb.length then qb else List.replicate sb.length 0)]
+          else [.write a sb])
+      | ["writebyte", a, b, q] => do
+        let b ← b.toNat?
+        let q ← q.toNat?
+        pure (if hasQ then [.write a [UInt8.ofNat b], .writequal a [UInt8.ofNat q]] else [.write a [UInt8.ofNat b]])
+      | ["clear", a] => some (if hasQ then [.clear a, .clearqual a] else [.clear a])
+      | ["join", a, b] => if hasQ || (v b).isNone then none else some [.join a b]
+      | ["setqual", a, q] => do
+        let qb ← unhex q
+        if qb.isEmpty || qb.length != oa.seq.length then none else pure [.base (.setqual a qb)]
+      | ["setmm", a, p] => do
+        let p ← p.toInt?
+        pure [.setann a mmKey [("(a:30)->(c:20)", p)]]
+      | ["setid", a, _] => some [.setid a]
+      | ["setseq", a, s] => do
+        let sb ← unhex s
+        pure [.setseq a sb]
+      | ["set", a, p, x] => do
+        let p ← p.toNat?
+        let x ← x.toNat?
+        pure [.base (.set a p (UInt8.ofNat x))]
+      | ["recycle", a] => some [.base (.recycle a)]
+      | _ => none
+
+open ObiVerif.SeqHeap in
+/-- expansion of a whole history along the value semantics; `none` = bad-op -/
+def expandAll : Nat → VStore → List String → List MOp → Option (List MOp)
+  | _, _, [], acc => some acc
+  | 0, _, _, _ => none
+  | fuel + 1, v, op :: ops, acc =>
+    match expandMut v op with
+    | none => none
+    | some ms =>
+      match mvrun v ms with
+      | .ok v1 => expandAll fuel v1 ops (acc ++ ms)
+      | .error _ => some (acc ++ ms)
+
+open ObiVerif.SeqHeap in
+def runMut (ops : List String) : String :=
+  match expandAll (ops.length + 1) (fun _ => none) ops [] with
+  | none => "bad-op"
+  | some ms =>
+    let names := ops.flatMap fun op => ((op.splitOn ":").drop 1).take 2
+    let out : Except HErr Heap → String := fun r => match r with
+      | .ok h => showViews names h.view
+      | .error .panic => "panic"
+      | .error .badOp => "bad-op"
+    let a := out (mrun Heap.empty (fun _ _ => 0) 0 ms)
+    let b := out (mrun Heap.empty (fun i j => (i * 7 + j * 3) % 5) 0 ms)
+    let c := out (mrun Heap.empty (fun _ j => if j ≥ 8 then 0 else 1000000) 0 ms)
+    let v : String := match mvrun (fun _ => none) ms with
+      | .ok v => showViews names v
+      | .error .panic => "panic"
+      | .error .badOp => "bad-op"
+    if a == b && b == c && c == v then a else s!"MODEL-DIVERGES lifo[{a}] rnd[{b}] fresh[{c}] value[{v}]"
+
+/-! ### annotation values with sharing (`Model/SeqAnnTree.lean`) -/
+
+open ObiVerif.AnnTree in
+def parseSc (w : String) : Option Sc :=
+  let rest : String := String.ofList (w.toList.drop 1)
+  if w.startsWith "i" then rest.toInt?.map .int
+  else if w.startsWith "s" then some (.str rest)
+  else if w.startsWith "A" then ((rest.splitOn ".").mapM String.toInt?).map .arr
+  else none
+
+open ObiVerif.AnnTree in
+def forestOf : List (String × ATree) → AForest
+  | [] => .nil
+  | (k, t) :: r => .cons k t (forestOf r)
+
+/-- split at top-level commas (parentheses nest) -/
+def splitTop (cs : List Char) : List (List Char) :=
+  let rec go (cs : List Char) (depth : Nat) (cur : List Char) (acc : List (List Char)) : List (List Char) :=
+    match cs with
+    | [] => (cur.reverse :: acc).reverse
+    | c :: r =>
+      if c == '(' then go r (depth + 1) (c :: cur) acc
+      else if c == ')' then go r (depth - 1) (c :: cur) acc
+      else if c == ',' && depth == 0 then go r depth [] (cur.reverse :: acc)
+      else go r depth (c :: cur) acc
+  go cs 0 [] []
+
+open ObiVerif.AnnTree in
+/-- `M(k=lit,…)`, `S(lit,…)`, scalars `i5`, `sab`, `A1.2.3` (ids are given by `relabel` later) -/
+def parseLit : Nat → List Char → Option ATree
+  | 0, _ => none
+  | fuel + 1, cs =>
+    match cs with
+    | 'M' :: '(' :: r =>
+      if r.getLast? != some ')' then none else
+      let body := r.dropLast
+      if body.isEmpty then some (.node 0 true .nil) else
+      ((splitTop body).mapM fun e =>
+        let k := e.takeWhile (· != '=')
+        (parseLit fuel (e.drop (k.length + 1))).map fun t => (String.ofList k, t)).map fun es => .node 0 true (forestOf es)
+    | 'S' :: '(' :: r =>
+      if r.getLast? != some ')' then none else
+      let body := r.dropLast
+      if body.isEmpty then some (.node 0 false .nil) else
+      ((splitTop body).mapM (parseLit fuel)).map fun ts =>
+        .node 0 false (forestOf ((List.range ts.length).zip ts |>.map fun (i, t) => (toString i, t)))
+    | _ => (parseSc (String.ofList cs)).map .leaf
+
+open ObiVerif.AnnTree in
+def parseAOp (op : String) : Option AOp :=
+  match op.splitOn ":" with
+  | ["new", a] => some (.new a)
+  | ["set", a, key, lit] => (parseLit 64 lit.toList).map fun t => .setattr a key t
+  | ["derive", a, b, _] => some (.derive a b)
+  | ["edit", a, path, k, v] => (parseSc v).map fun sc => .edit a (if path == "-" then [] else path.splitOn "/") k sc
+  | ["recycle", a] => some (.recycle a)
+  | _ => none
+
+def showSc : ObiVerif.AnnTree.Sc → String
+  | .int v => s!"i{v}"
+  | .str s => s!"s{s}"
+  | .arr l => "A" ++ ".".intercalate (l.map toString)
+
+open ObiVerif.AnnTree in
+mutual
+def showTree : ATree → String
+  | .leaf v => showSc v
+  | .node _ m ks =>
+    if m then "M(" ++ ",".intercalate (((showForest ks).foldr insStr []).map fun kv => kv.1 ++ "=" ++ kv.2) ++ ")"
+    else "S(" ++ ",".intercalate ((showForest ks).map (·.2)) ++ ")"
+def showForest : AForest → List (String × String)
+  | .nil => []
+  | .cons k t r => (k, showTree t) :: showForest r
+end
+
+open ObiVerif.AnnTree in
+def showAObj (o : AObj) : String × String :=
+  (o.name, o.name ++ "{" ++ ";".intercalate (((showForest o.kids).foldr insStr []).map fun kv => kv.1 ++ "=" ++ kv.2) ++ "}")
+
+open ObiVerif.AnnTree in
+/-- two pool policies (most recently recycled map; never reuse) must print the same -/
+def runAnn (ops : List String) : String :=
+  match ops.mapM parseAOp with
+  | none => "bad-op"
+  | some aops =>
+    let out : Except AErr State → String := fun r => match r with
+      | .ok s => joinSp (((s.objs.map showAObj).foldr insStr []).map (·.2))
+      | .error _ => "bad-op"
+    let a := out (arun State.empty (fun _ => 0) 0 aops)
+    let b := out (arun State.empty (fun _ => 1000000) 0 aops)
+    if a == b then a else s!"MODEL-DIVERGES lifo[{a}] fresh[{b}]"
+
 def run (line : String) : String :=
   match words line with
   | "heap" :: ops => runHeap ops
-  | "mut" :: _ => "ok"
+  | "mut" :: ops => runMut ops
+  | "annh" :: ops => runAnn ops
   | "annkinds" :: _ => "ok"
   | ["rcw", s, q, mm] =>
     match parseW s q mm with
